@@ -37,21 +37,29 @@ pub open spec fn cross_spec(tick: Tick, ga: u128, gb: u128, ri: [WhirlpoolReward
         decreases 3 - i_it,
 //@ end
 
-/// liquidity change at a range bound (C05: net +-delta by side, gross + delta; C07: new-tick convention)
-pub open spec fn tick_modify_spec(tick: Tick, tick_index: int, cur: int, ga: u128, gb: u128, ri: [WhirlpoolRewardInfo; 3], delta: int, is_upper: bool, r: Result<TickUpdate, ErrorCode>) -> bool {
+/// liquidity change at a range bound (C05: net +-delta by side, gross + delta; C07: new-tick convention).
+/// Split into the error outcome and the predicate on a successful result so that the Anchor and the Pinocchio implementation carry the same text (C12).
+pub open spec fn tick_modify_err(tick: Tick, delta: int, is_upper: bool) -> Option<ErrorCode> {
     let gross = tick.liquidity_gross as int + delta;
     let net = if is_upper { tick.liquidity_net as int - delta } else { tick.liquidity_net as int + delta };
-    if delta == 0 { r == Ok::<TickUpdate, ErrorCode>(tick.as_update()) }
-    else if gross > U128MAX() { r == Err::<TickUpdate, ErrorCode>(ErrorCode::LiquidityOverflow) }
-    else if gross < 0 { r == Err::<TickUpdate, ErrorCode>(ErrorCode::LiquidityUnderflow) }
-    else if gross == 0 { r matches Ok(u) && is_tick_update_default(u) }
-    else if net > i128::MAX as int || net < i128::MIN as int { r == Err::<TickUpdate, ErrorCode>(ErrorCode::LiquidityNetError) }
+    if delta == 0 { None }
+    else if gross > U128MAX() { Some(ErrorCode::LiquidityOverflow) }
+    else if gross < 0 { Some(ErrorCode::LiquidityUnderflow) }
+    else if gross == 0 { None }
+    else if net > i128::MAX as int || net < i128::MIN as int { Some(ErrorCode::LiquidityNetError) }
+    else { None }
+}
+pub open spec fn tick_modify_ok(tick: Tick, tick_index: int, cur: int, ga: u128, gb: u128, g: spec_fn(int) -> u128, delta: int, is_upper: bool, u: TickUpdate) -> bool {
+    let gross = tick.liquidity_gross as int + delta;
+    let net = if is_upper { tick.liquidity_net as int - delta } else { tick.liquidity_net as int + delta };
+    if delta == 0 { u == tick.as_update() }
+    else if gross == 0 { is_tick_update_default(u) }
     else {
-        r matches Ok(u) && u.initialized && u.liquidity_gross as int == gross && u.liquidity_net as int == net
+        u.initialized && u.liquidity_gross as int == gross && u.liquidity_net as int == net
         && (if tick.liquidity_gross == 0 {
                 if cur >= tick_index {
                     u.fee_growth_outside_a == ga && u.fee_growth_outside_b == gb
-                    && (forall|k: int| 0 <= k < 3 ==> #[trigger] u.reward_growths_outside[k] == ri[k].growth_global_x64)
+                    && (forall|k: int| 0 <= k < 3 ==> #[trigger] u.reward_growths_outside[k] == g(k))
                 } else {
                     u.fee_growth_outside_a == 0 && u.fee_growth_outside_b == 0
                     && (forall|k: int| 0 <= k < 3 ==> #[trigger] u.reward_growths_outside[k] == 0)
@@ -60,6 +68,12 @@ pub open spec fn tick_modify_spec(tick: Tick, tick_index: int, cur: int, ga: u12
                 u.fee_growth_outside_a == tick.fee_growth_outside_a && u.fee_growth_outside_b == tick.fee_growth_outside_b
                 && u.reward_growths_outside == tick.reward_growths_outside
             })
+    }
+}
+pub open spec fn tick_modify_spec(tick: Tick, tick_index: int, cur: int, ga: u128, gb: u128, ri: [WhirlpoolRewardInfo; 3], delta: int, is_upper: bool, r: Result<TickUpdate, ErrorCode>) -> bool {
+    match r {
+        Ok(u) => tick_modify_err(tick, delta, is_upper) is None && tick_modify_ok(tick, tick_index, cur, ga, gb, |k: int| ri[k].growth_global_x64, delta, is_upper, u),
+        Err(e) => tick_modify_err(tick, delta, is_upper) == Some(e),
     }
 }
 //@ fn manager/tick_manager.rs next_tick_modify_liquidity_update -> r
@@ -99,17 +113,22 @@ pub open spec fn growth_inside(cur: int, lower_init: bool, lower_out: u128, lowe
 pub open spec fn credit(l: u128, delta: u128) -> u64 {
     if l as int * delta as int <= U128MAX() && (l as int * delta as int) / Q() <= U64MAX() { ((l as int * delta as int) / Q()) as u64 } else { 0u64 }
 }
-pub open spec fn position_modify_spec(p: Position, delta: int, fa: u128, fb: u128, rg: [u128; 3], r: Result<PositionUpdate, ErrorCode>) -> bool {
+pub open spec fn position_modify_err(p: Position, delta: int) -> Option<ErrorCode> {
     let l = p.liquidity as int + delta;
-    if l > U128MAX() { r == Err::<PositionUpdate, ErrorCode>(ErrorCode::LiquidityOverflow) }
-    else if l < 0 { r == Err::<PositionUpdate, ErrorCode>(ErrorCode::LiquidityUnderflow) }
-    else {
-        r matches Ok(u) && u.liquidity as int == l
-        && u.fee_growth_checkpoint_a == fa && u.fee_growth_checkpoint_b == fb
-        && u.fee_owed_a == wadd64(p.fee_owed_a, credit(p.liquidity, wsub(fa, p.fee_growth_checkpoint_a)))
-        && u.fee_owed_b == wadd64(p.fee_owed_b, credit(p.liquidity, wsub(fb, p.fee_growth_checkpoint_b)))
-        && (forall|k: int| 0 <= k < 3 ==> (#[trigger] u.reward_infos[k]).growth_inside_checkpoint == rg[k]
-              && u.reward_infos[k].amount_owed == wadd64(p.reward_infos[k].amount_owed, credit(p.liquidity, wsub(rg[k], p.reward_infos[k].growth_inside_checkpoint))))
+    if l > U128MAX() { Some(ErrorCode::LiquidityOverflow) } else if l < 0 { Some(ErrorCode::LiquidityUnderflow) } else { None }
+}
+pub open spec fn position_modify_ok(p: Position, delta: int, fa: u128, fb: u128, rg: [u128; 3], u: PositionUpdate) -> bool {
+    u.liquidity as int == p.liquidity as int + delta
+    && u.fee_growth_checkpoint_a == fa && u.fee_growth_checkpoint_b == fb
+    && u.fee_owed_a == wadd64(p.fee_owed_a, credit(p.liquidity, wsub(fa, p.fee_growth_checkpoint_a)))
+    && u.fee_owed_b == wadd64(p.fee_owed_b, credit(p.liquidity, wsub(fb, p.fee_growth_checkpoint_b)))
+    && (forall|k: int| 0 <= k < 3 ==> (#[trigger] u.reward_infos[k]).growth_inside_checkpoint == rg[k]
+          && u.reward_infos[k].amount_owed == wadd64(p.reward_infos[k].amount_owed, credit(p.liquidity, wsub(rg[k], p.reward_infos[k].growth_inside_checkpoint))))
+}
+pub open spec fn position_modify_spec(p: Position, delta: int, fa: u128, fb: u128, rg: [u128; 3], r: Result<PositionUpdate, ErrorCode>) -> bool {
+    match r {
+        Ok(u) => position_modify_err(p, delta) is None && position_modify_ok(p, delta, fa, fb, rg, u),
+        Err(e) => position_modify_err(p, delta) == Some(e),
     }
 }
 //@ fn manager/position_manager.rs next_position_modify_liquidity_update -> r
@@ -131,15 +150,17 @@ pub open spec fn position_modify_spec(p: Position, delta: int, fa: u128, fb: u12
 pub open spec fn reward_delta(dt: int, e: u128, l: u128) -> u128 {
     if dt * e as int <= U128MAX() && l > 0 { ((dt * e as int) / l as int) as u128 } else { 0u128 }
 }
+/// next global growth of reward k at time `next` (C11): unchanged without liquidity / elapsed time / for an uninitialized reward
+pub open spec fn next_growth(w: Whirlpool, next: int, k: int) -> u128 {
+    let cur = w.reward_last_updated_timestamp as int;
+    if w.liquidity == 0 || next == cur || !w.reward_infos[k].is_init() { w.reward_infos[k].growth_global_x64 }
+    else { wadd(w.reward_infos[k].growth_global_x64, reward_delta(next - cur, w.reward_infos[k].emissions_per_second_x64, w.liquidity)) }
+}
 pub open spec fn reward_infos_spec(w: Whirlpool, next: int, r: Result<[WhirlpoolRewardInfo; 3], ErrorCode>) -> bool {
     let cur = w.reward_last_updated_timestamp as int;
-    if next < cur { r == Err::<[WhirlpoolRewardInfo; 3], ErrorCode>(ErrorCode::InvalidTimestamp) }
-    else if w.liquidity == 0 || next == cur { r == Ok::<[WhirlpoolRewardInfo; 3], ErrorCode>(w.reward_infos) }
-    else {
-        r matches Ok(ri) && forall|k: int| 0 <= k < 3 ==> #[trigger] ri[k] ==
-            (if w.reward_infos[k].is_init() {
-                WhirlpoolRewardInfo { growth_global_x64: wadd(w.reward_infos[k].growth_global_x64, reward_delta(next - cur, w.reward_infos[k].emissions_per_second_x64, w.liquidity)), ..w.reward_infos[k] }
-             } else { w.reward_infos[k] })
+    match r {
+        Err(e) => next < cur && e == ErrorCode::InvalidTimestamp,
+        Ok(ri) => next >= cur && forall|k: int| 0 <= k < 3 ==> #[trigger] ri[k] == (WhirlpoolRewardInfo { growth_global_x64: next_growth(w, next, k), ..w.reward_infos[k] }),
     }
 }
 //@ fn manager/whirlpool_manager.rs next_whirlpool_reward_infos -> r
@@ -147,10 +168,8 @@ pub open spec fn reward_infos_spec(w: Whirlpool, next: int, r: Result<[Whirlpool
 //@ rewrite_iter_mut
 //@ loop 0
         invariant reward_info_it <= 3, next_reward_infos.len() == 3, time_delta as int == next_timestamp as int - curr_timestamp as int, whirlpool.liquidity > 0,
-            forall|k: int| 0 <= k < reward_info_it ==> #[trigger] next_reward_infos[k] ==
-                (if whirlpool.reward_infos[k].is_init() {
-                    WhirlpoolRewardInfo { growth_global_x64: wadd(whirlpool.reward_infos[k].growth_global_x64, reward_delta(time_delta as int, whirlpool.reward_infos[k].emissions_per_second_x64, whirlpool.liquidity)), ..whirlpool.reward_infos[k] }
-                 } else { whirlpool.reward_infos[k] }),
+            curr_timestamp == whirlpool.reward_last_updated_timestamp, next_timestamp > curr_timestamp,
+            forall|k: int| 0 <= k < reward_info_it ==> #[trigger] next_reward_infos[k] == (WhirlpoolRewardInfo { growth_global_x64: next_growth(*whirlpool, next_timestamp as int, k), ..whirlpool.reward_infos[k] }),
             forall|k: int| reward_info_it <= k < 3 ==> next_reward_infos[k] == whirlpool.reward_infos[k],
         decreases 3 - reward_info_it,
 //@ end
